@@ -120,7 +120,7 @@ def run_e2(I, flags, seq, argv_extra=None, hook_factory=symbolic_hook,
     ``seq``: ordered criteria [(crit, [args])] (args may be ints or z3 Ints)."""
     ns = repo.load('shim')
     e = S.engine()
-    clk = SymClock() if clock else None
+    clk = (clock if isinstance(clock, SymClock) else SymClock()) if clock else None
     install_shadows(ns, clk)
     if numerics is None:
         J, dom, free = sym_numerics(I)
